@@ -19,3 +19,6 @@ func VerifReset() {
 	streamReplayCache = replay.NewCache(c, cipher.KeyRefreshInterval*3)
 	packetReplayCache = replay.NewCache(c, cipher.KeyRefreshInterval*3)
 }
+
+// VerifPacketReplayCache gives harnesses read access to the datagram replay cache.
+func VerifPacketReplayCache() *replay.ReplayCache { return packetReplayCache }
